@@ -11,6 +11,7 @@
 EXTENDS Integers, FiniteSets, Sequences
 
 CONSTANTS NP,          \* number of producers
+          GuardEach,   \* TRUE: gather_no_raise guards every finalize() separately (the code); FALSE: one guard around the gather
           FixLogMode   \* TRUE: backtesting_log_mode restores the log record factory in a finally block
 
 P == 1..NP
@@ -87,12 +88,22 @@ Finally ==
   /\ phase = "finally"
   /\ poolCancelled' = TRUE /\ phase' = "finalize"
   /\ UNCHANGED <<disp, fault, ps, fin, loop, stopped, exc, extCancel, logFactory, outcome>>
-Finalize(p) ==
+\* finalize() of every producer runs concurrently and may suspend (closing sessions, sockets):
+\* fin[p] = 0 not called, 1 running, 2 returned, 3 raised.  gather_no_raise guards EVERY awaitable (GuardEach): the run goes
+\* on only when all of them are over.  With a single guard around one gather (GuardEach = FALSE) the first failure ends the
+\* wait while the others are still running -- the design the must-fail configuration rejects.
+FinalizeBegin(p) ==
   /\ phase = "finalize" /\ fin[p] = 0
-  /\ fin' = [fin EXCEPT ![p] = 1]                                    \* failures are swallowed by gather_no_raise
+  /\ fin' = [fin EXCEPT ![p] = 1]
+  /\ UNCHANGED <<disp, fault, phase, ps, loop, stopped, exc, extCancel, poolCancelled, logFactory, outcome>>
+FinalizeEnd(p) ==
+  /\ phase = "finalize" /\ fin[p] = 1
+  /\ fin' = [fin EXCEPT ![p] = IF fault[p].fin = "raise" THEN 3 ELSE 2]     \* failures are swallowed
   /\ UNCHANGED <<disp, fault, phase, ps, loop, stopped, exc, extCancel, poolCancelled, logFactory, outcome>>
 Finish ==
-  /\ phase = "finalize" /\ \A p \in P : fin[p] = 1
+  /\ phase = "finalize"
+  /\ IF GuardEach THEN \A p \in P : fin[p] \in {2, 3}
+     ELSE (\A p \in P : fin[p] \in {2, 3}) \/ ((\E p \in P : fin[p] = 3) /\ \A p \in P : fin[p] >= 1)
   /\ LET raised == CASE exc = "producer" -> "raised_producer_error"
                      [] exc = "cancelled" -> IF stopped THEN "returned" ELSE "raised_cancelled"
                      [] OTHER -> "returned" IN
@@ -101,14 +112,14 @@ Finish ==
   /\ phase' = "done"
   /\ UNCHANGED <<disp, fault, ps, fin, loop, stopped, exc, extCancel, poolCancelled>>
 
-Next == \/ \E p \in P : InitEnds(p) \/ MainEnds(p) \/ Finalize(p)
+Next == \/ \E p \in P : InitEnds(p) \/ MainEnds(p) \/ FinalizeBegin(p) \/ FinalizeEnd(p)
         \/ StartMain \/ Stop \/ StopEarly \/ AllReturn \/ ExternalCancel \/ Finally \/ Finish
         \/ (phase = "main" /\ loop = "run" /\ disp = "bt" /\ ~stopped /\ Stop)
 Spec == Init /\ [][Next]_vars
 
 Inv_C14_MainAfterAllInit == (\E p \in P : ps[p] \in {"main_run", "main_done", "main_failed"}) => \A q \in P : ps[q] # "init_run" /\ ps[q] # "init_failed" /\ ps[q] # "new"
-Inv_C14_FinalizedOnce == /\ \A p \in P : fin[p] <= 1
-                         /\ (phase = "done" => \A p \in P : fin[p] = 1)
+\* every producer is finalised exactly once, and its finalize() is over when the run ends
+Inv_C14_FinalizedOnce == phase = "done" => \A p \in P : fin[p] \in {2, 3}
 Inv_C14_Outcome ==
   phase = "done" =>
      /\ outcome \in {"returned", "raised_producer_error", "raised_cancelled"}
